@@ -8,6 +8,7 @@ from skglm.solvers.common import (
 from skglm.solvers.base import BaseSolver
 from skglm.utils.anderson import AndersonAcceleration
 from skglm.utils.validation import check_attrs
+from skglm import _verif
 
 
 class AndersonCD(BaseSolver):
@@ -122,6 +123,9 @@ class AndersonCD(BaseSolver):
                 intercept_opt = 0.
 
             stop_crit = max(np.max(opt), intercept_opt)
+            if _verif.ENABLED:
+                _verif.emit("head", t=t, w=w, Xw=Xw, grad=grad, opt=opt,
+                            intercept_opt=intercept_opt, stop_crit=stop_crit)
 
             if self.verbose:
                 print(f"Stopping criterion max violation: {stop_crit:.2e}")
@@ -137,6 +141,8 @@ class AndersonCD(BaseSolver):
 
             # here use topk instead of np.argsort(opt)[-ws_size:]
             ws = np.argpartition(opt, -ws_size)[-ws_size:]
+            if _verif.ENABLED:
+                _verif.emit("ws", ws_size=ws_size, ws=ws)
 
             # re init AA at every iter to consider ws
             accelerator = AndersonAcceleration(K=5)
@@ -158,12 +164,16 @@ class AndersonCD(BaseSolver):
                     _cd_epoch(
                         X, y, w[:n_features], Xw, lipschitz, datafit, penalty, ws
                     )
+                if _verif.ENABLED:
+                    _verif.emit("epoch", epoch=epoch, w=w, Xw=Xw)
 
                 # update intercept
                 if self.fit_intercept:
                     intercept_old = w[-1]
                     w[-1] -= datafit.intercept_update_step(y, Xw)
                     Xw += (w[-1] - intercept_old)
+                    if _verif.ENABLED:
+                        _verif.emit("intercept", w=w, Xw=Xw)
 
                 # 3) do Anderson acceleration on smaller problem
                 w_acc[ws_intercept], Xw_acc[:], is_extrap = accelerator.extrapolate(
@@ -179,6 +189,9 @@ class AndersonCD(BaseSolver):
                     if p_obj_acc < p_obj:
                         w[:], Xw[:] = w_acc, Xw_acc
                         p_obj = p_obj_acc
+                if _verif.ENABLED:
+                    _verif.emit("extrap", is_extrap=is_extrap, w=w, Xw=Xw,
+                                w_acc=w_acc, Xw_acc=Xw_acc)
 
                 if epoch % 10 == 0:
                     if is_sparse:
@@ -194,6 +207,8 @@ class AndersonCD(BaseSolver):
                         )
 
                     stop_crit_in = np.max(opt_ws)
+                    if _verif.ENABLED:
+                        _verif.emit("inner", epoch=epoch, stop_crit_in=stop_crit_in, w=w, Xw=Xw)
                     if max(self.verbose - 1, 0):
                         p_obj = (datafit.value(y, w[:n_features], Xw) +
                                  penalty.value(w[:n_features]))
@@ -209,6 +224,8 @@ class AndersonCD(BaseSolver):
                             break
             p_obj = datafit.value(y, w[:n_features], Xw) + penalty.value(w[:n_features])
             obj_out.append(p_obj)
+            if _verif.ENABLED:
+                _verif.emit("obj", p_obj=p_obj, w=w, Xw=Xw)
         return w, np.array(obj_out), stop_crit
 
     def path(self, X, y, datafit, penalty, alphas=None, w_init=None,
